@@ -133,7 +133,9 @@ func (set *TreeSet) ToCursor() SetCursor {
 
 func NewTreeCursor(tree *llrb.Tree) SetCursor {
 	result := &treeCursor{}
-	result.next(tree.Root)
+	if tree.Root != nil {
+		result.next(tree.Root)
+	}
 	return result
 }
 
@@ -152,6 +154,10 @@ func (cursor *treeCursor) next(node *llrb.Node) {
 }
 
 func (cursor *treeCursor) Next() {
+	if cursor.current == nil {
+		return
+	}
+
 	if cursor.current.Right != nil {
 		cursor.next(cursor.current.Right)
 		return
